@@ -610,4 +610,240 @@ structure SInv (s : St n) : Prop where
   dropped : ∀ o, s.table (s.och o) ≠ some o → s.subs o = []
   loop : ∀ u o sent todo, (s.thr u).pc = .p4 o sent todo → s.subs o = sent ++ todo
 
+@[simp] theorem entry_pcObj (op : Op) : pcObj (entry op) = none := by cases op <;> rfl
+@[simp] theorem entry_knowsTab (op : Op) : knowsTab (entry op) = none := by cases op <;> rfl
+
+theorem sinv_lt (s s' : St n) (t : Fin n) (b : Bool) (h : next0 s t b = some s') (hl : LInv s) (hi : SInv s) :
+    (∀ ch o, s'.table ch = some o → o < s'.next) ∧ (∀ u o, pcObj (s'.thr u).pc = some o → o < s'.next) := by
+  have hk := hl.kind t
+  have h1 := hi.lt
+  have h2 := hi.pclt
+  have h2t := hi.pclt t
+  clear hi hl
+  step_cases h
+  all_goals refine ⟨fun ch o => ?_, fun u o => ?_⟩
+  all_goals (try have h1' := h1 ch o)
+  all_goals (try have h2' := h2 u o)
+  all_goals (try by_cases hu : u = t)
+  all_goals (try subst hu)
+  all_goals (try have hu' : ¬ t = u := fun e => hu e.symm)
+  all_goals (try simp [*, setT, fin, upd, entry_holds] at *)
+  all_goals (first | assumption | (intro e; subst e; exact h1 _ _ (by assumption)) | (intro hh; exact Nat.lt_succ_of_lt (h2' hh)) | (intro e; rw [← e]; exact Nat.lt_succ_self _) | (intro _ hh; exact h1' hh) | (intro hh; split at hh <;> first | exact Nat.lt_succ_of_lt (h1' hh) | (simp at hh; rw [← hh]; exact Nat.lt_succ_self _)))
+
+theorem sinv_och (s s' : St n) (t : Fin n) (b : Bool) (h : next0 s t b = some s') (hl : LInv s) (hi : SInv s) :
+    (∀ ch o, s'.table ch = some o → s'.och o = ch) ∧ (∀ u o, pcObj (s'.thr u).pc = some o → s'.och o = (s'.thr u).cur.chan) := by
+  have hk := hl.kind t
+  have h1 := hi.tab
+  have h2 := hi.pcch
+  have h2t := hi.pcch t
+  have h3 := hi.lt
+  have h4 := hi.pclt
+  clear hi hl
+  step_cases h
+  all_goals refine ⟨fun ch o => ?_, fun u o => ?_⟩
+  all_goals (try have h1' := h1 ch o)
+  all_goals (try have h3' := h3 ch o)
+  all_goals (try have h2' := h2 u o)
+  all_goals (try have h4' := h4 u o)
+  all_goals (try by_cases hu : u = t)
+  all_goals (try subst hu)
+  all_goals (try have hu' : ¬ t = u := fun e => hu e.symm)
+  all_goals (try simp [*, setT, fin, upd, entry_holds] at *)
+  all_goals (first | assumption | (intro e; subst e; exact h1 _ _ (by assumption)) | (intro _ hh; exact h1' hh) | (intro e1 e2; exact absurd e1.symm e2) | (intro hh; rw [if_neg (Nat.ne_of_lt (h4' hh))]; exact h2' hh) | skip)
+  all_goals (intro hh; split at hh)
+  · simp at hh; subst hh; simp [*]
+  · rw [if_neg (Nat.ne_of_lt (h3' hh))]; exact h1' hh
+
+theorem LInv.others_know_nothing {s : St n} (hl : LInv s) (t u : Fin n) (hu : u ≠ t) (ht : holdsTW (s.thr t).pc = true) :
+    knowsTab (s.thr u).pc = none := by
+  cases h : knowsTab (s.thr u).pc with
+  | none => rfl
+  | some o => exact absurd (hl.tw_unique u t (knowsTab_holds _ o h) ht) hu
+
+theorem sinv_held (s s' : St n) (t : Fin n) (b : Bool) (h : next0 s t b = some s') (hl : LInv s) (hi : SInv s) :
+    ∀ u o, knowsTab (s'.thr u).pc = some o → s'.table (s'.thr u).cur.chan = some o := by
+  have hk := hl.kind t
+  intro u o
+  have h1 := hi.held u o
+  have h1t := hi.held t
+  have hx := hl.others_know_nothing t u
+  clear hi hl
+  step_cases h
+  all_goals (try by_cases hu : u = t)
+  all_goals (try subst hu)
+  all_goals (try have hu' : ¬ t = u := fun e => hu e.symm)
+  all_goals (try simp [*, setT, fin, upd, entry_holds] at *)
+  all_goals (first | assumption | skip)
+
+theorem sinv_nodup (s s' : St n) (t : Fin n) (b : Bool) (h : next0 s t b = some s') (hi : SInv s) :
+    ∀ o, (s'.subs o).Nodup := by
+  intro o
+  have h1 := hi.nodup o
+  have h2 := hi.nodup
+  clear hi
+  step_cases h
+  all_goals (try simp [*, setT, fin, upd] at *)
+  all_goals (first | assumption | skip)
+  all_goals split
+  all_goals (first | exact h2 _ | exact List.nodup_nil | exact (h2 _).erase _ | skip)
+  rw [List.nodup_append]
+  refine ⟨h2 _, by simp, fun a ha b hb => ?_⟩
+  simp at hb; subst hb
+  intro e; subst e; contradiction
+
+@[simp] theorem entry_ne_p4 (op : Op) (o : Obj) (a b : List Conn) : (entry op = Pc.p4 o a b) = False := by cases op <;> simp [entry]
+
+theorem erase_mid (a b : List Conn) (c : Conn) (h : (a ++ c :: b).Nodup) : (a ++ c :: b).erase c = a ++ b := by
+  have : c ∉ a := by
+    intro hc
+    rw [List.nodup_append] at h
+    exact h.2.2 c hc c (by simp) rfl
+  rw [List.erase_append_right _ this, List.erase_cons_head]
+
+theorem sinv_loop (s s' : St n) (t : Fin n) (b : Bool) (h : next0 s t b = some s') (hl : LInv s) (hi : SInv s) :
+    ∀ u o sent todo, (s'.thr u).pc = .p4 o sent todo → s'.subs o = sent ++ todo := by
+  have hk := hl.kind t
+  intro u o sent todo
+  have h1 := hi.loop u o sent todo
+  have h1t := hi.loop t
+  have hnd := hi.nodup
+  have hlt := hi.pclt u o
+  have hx : u ≠ t → ∀ o', holdsO (s.thr t).pc = some o' → holdsO (s.thr u).pc = some o' → False :=
+    fun hne o' a b => hne (hl.ow_unique u t o' b a)
+  clear hi hl
+  step_cases h
+  all_goals (try by_cases hu : u = t)
+  all_goals (try subst hu)
+  all_goals (try have hu' : ¬ t = u := fun e => hu e.symm)
+  all_goals (try simp [*, setT, fin, upd, entry_holds] at *)
+  all_goals (first | assumption
+                   | (intro hp; have := hlt (by rw [hp]; rfl); rw [if_neg (Nat.ne_of_lt this)]; exact h1 hp)
+                   | (intro hp; rw [hp] at hx; simp at hx; rw [if_neg hx]; exact h1 hp)
+                   | (intro e1 e2 e3; subst e1 e2; simp [e3]; done)
+                   | (intro e1 e2 e3; subst e1 e2 e3; rw [h1t]; simp; done)
+                   | (intro e1 e2 e3; subst e1 e2 e3; simp only [if_true]; rw [h1t]; refine erase_mid _ _ _ ?_; rw [← h1t]; exact hnd _))
+
+theorem sinv_dropped (s s' : St n) (t : Fin n) (b : Bool) (h : next0 s t b = some s') (hl : LInv s) (hi : SInv s) :
+    ∀ o, s'.table (s'.och o) ≠ some o → s'.subs o = [] := by
+  have hk := hl.kind t
+  intro o
+  have h1 := hi.dropped o
+  have h1a := hi.dropped
+  have hheld := hi.held t
+  have htab := hi.tab
+  have hlt := hi.lt
+  clear hi hl
+  step_cases h
+  all_goals (try simp [*, setT, fin, upd, entry_holds] at *)
+  all_goals (first | assumption | skip)
+  case h_2 =>
+    rename_i _ hpc _ htb
+    intro hne hon
+    apply h1
+    intro hs
+    simp only [hon, if_false] at hne
+    by_cases hc : s.och o = (s.thr t).cur.chan
+    · rw [hc, htb] at hs; cases hs
+    · simp [hc] at hne; exact hne hs
+  case h_5.isFalse =>
+    rename_i _ o' hpc hnin
+    intro hs
+    by_cases e : o = o'
+    · subst e; exact absurd (by rw [htab _ _ hheld]; exact hheld) hs
+    · rw [if_neg e]; exact h1 hs
+  case h_11 => intro hs; have h0 := h1 hs; split <;> simp_all
+  case h_20.isTrue.isTrue => intro hs; have h0 := h1 hs; split <;> simp_all
+  case h_12.isTrue =>
+    rename_i _ o' hpc hemp
+    intro hh
+    by_cases hc : s.och o = (s.thr t).cur.chan
+    · by_cases e : o = o'
+      · subst e; exact hemp
+      · apply h1; rw [hc, hheld]; intro e2; exact e (Option.some.inj e2).symm
+    · exact h1 (hh hc)
+
+theorem sinv_next0 (s s' : St n) (t : Fin n) (b : Bool) (h : next0 s t b = some s') (hl : LInv s) (hi : SInv s) : SInv s' :=
+  ⟨(sinv_lt s s' t b h hl hi).1, (sinv_och s s' t b h hl hi).1, (sinv_lt s s' t b h hl hi).2, (sinv_och s s' t b h hl hi).2,
+   sinv_held s s' t b h hl hi, sinv_nodup s s' t b h hi, sinv_dropped s s' t b h hl hi, sinv_loop s s' t b h hl hi⟩
+
+theorem sinv_step (s s' : St n) (h : Step s s') (hl : LInv s) (hi : SInv s) : SInv s' := by
+  cases h with
+  | thr _ t b h =>
+    obtain ⟨s1, h0, rfl⟩ := next_eq s s' t b h
+    have i := sinv_next0 s s1 t b h0 hl hi
+    exact ⟨i.lt, i.tab, i.pclt, i.pcch, i.held, i.nodup, i.dropped, i.loop⟩
+  | die c => exact ⟨hi.lt, hi.tab, hi.pclt, hi.pcch, hi.held, hi.nodup, hi.dropped, hi.loop⟩
+
+theorem sinv_init (progs : Fin n → List Op) : SInv (init progs) := by
+  refine ⟨?_, ?_, ?_, ?_, ?_, ?_, ?_, ?_⟩ <;> simp [init]
+
+theorem inv_reach (progs : Fin n → List Op) (hr : Real progs) (s : St n) (h : Reach progs s) : LInv s ∧ SInv s := by
+  induction h with
+  | init => exact ⟨linv_init progs hr, sinv_init progs⟩
+  | step s s' _ hs ih => exact ⟨linv_step s s' hs ih.1, sinv_step s s' hs ih.1 ih.2⟩
+
+/-- **an object no table entry points to has no subscribers** — so a Send that looked an object up just before it was dropped
+    delivers to nobody (and is linearized at the drop: `Props/C19ConcLin.lean`) -/
+theorem dropped_object_is_empty (progs : Fin n → List Op) (hr : Real progs) (s : St n) (hs : Reach progs s) (o : Obj)
+    (h : ∀ ch, s.table ch ≠ some o) : s.subs o = [] :=
+  (inv_reach progs hr s hs).2.dropped o (h _)
+
+/-- the delivery loop's invariant: the object's subscriber list is exactly `delivered ++ still to visit`, duplicate-free -/
+theorem send_loop_invariant (progs : Fin n → List Op) (hr : Real progs) (s : St n) (hs : Reach progs s) (t : Fin n) (o : Obj)
+    (sent todo : List Conn) (h : (s.thr t).pc = .p4 o sent todo) :
+    s.subs o = sent ++ todo ∧ (sent ++ todo).Nodup ∧ s.ow o = some t := by
+  obtain ⟨hl, hi⟩ := inv_reach progs hr s hs
+  refine ⟨hi.loop t o sent todo h, ?_, (hl.ow t o).2 (by rw [h]; rfl)⟩
+  rw [← hi.loop t o sent todo h]; exact hi.nodup o
+
+/-- **during a Send's delivery loop no other thread changes the object's subscriber set** (it holds the object's write lock) -/
+theorem send_sees_consistent_set (progs : Fin n → List Op) (hr : Real progs) (s s' : St n) (hs : Reach progs s) (t u : Fin n)
+    (o : Obj) (sent todo : List Conn) (h : (s.thr t).pc = .p4 o sent todo) (hu : u ≠ t) (b : Bool) (hn : next s u b = some s') :
+    s'.subs o = s.subs o ∧ (s'.thr t).pc = .p4 o sent todo := by
+  obtain ⟨hl, hi⟩ := inv_reach progs hr s hs
+  obtain ⟨hl', hi'⟩ := inv_reach progs hr s' (Reach.step s s' hs (Step.thr s s' u b hn))
+  obtain ⟨s1, h0, rfl⟩ := next_eq s s' u b hn
+  have hpc : (s1.thr t).pc = .p4 o sent todo := by
+    have hne : t ≠ u := fun e => hu e.symm
+    clear hl' hi' hl hi hn hs
+    step_cases h0 <;> simp_all [setT, fin, upd] <;> (split <;> first | rfl | assumption)
+  exact ⟨by rw [hi'.loop t o sent todo hpc, hi.loop t o sent todo h], hpc⟩
+
+/-! ### the hypotheses are satisfiable: a real program, a reachable state inside a delivery loop with another thread unfinished -/
+
+def exProgs : Fin 2 → List Op := fun t =>
+  if t = 0 then [.subscribe 1 [97], .send [97] [1]] else [.subscribe 2 [97], .unsubscribe 2 [97]]
+
+theorem exProgs_real : Real exProgs := by
+  intro t op h
+  unfold exProgs at h
+  split at h <;> simp at h <;> rcases h with rfl | rfl <;> rfl
+
+def exSched : List (Fin 2 × Bool) :=
+  [(0, false), (0, false), (0, false), (0, false), (0, false), (0, false), (0, false),
+   (1, false), (1, false), (1, false), (1, false), (1, false), (1, false), (1, false),
+   (0, false), (0, false), (0, false), (0, false), (0, false), (0, false), (1, false)]
+
+theorem ex_eval : (runSched (init exProgs) exSched).map
+    (fun s => decide ((s.thr 0).pc = .p4 0 [1] [2]) && decide ((s.thr 1).pc = .u0) && decide (s.log 1 = [([97], [1])])) = some true := by
+  decide
+
+example : ∃ s : St 2, Reach exProgs s ∧ (s.thr 0).pc = .p4 0 [1] [2] ∧ ¬ finished (s.thr 1) ∧ (∃ t, canStep s t) := by
+  have h := ex_eval
+  cases hr : runSched (init exProgs) exSched with
+  | none => rw [hr] at h; simp at h
+  | some s =>
+    rw [hr] at h
+    simp only [Option.map_some, Option.some.injEq, Bool.and_eq_true, decide_eq_true_eq] at h
+    have hreach := reach_runSched exProgs exSched _ _ Reach.init hr
+    have hnf : ¬ finished (s.thr 1) := by intro hf; rw [hf.1] at h; cases h.1.2
+    exact ⟨s, hreach, h.1.1, hnf, pubsub_deadlock_free exProgs exProgs_real s hreach ⟨1, hnf⟩⟩
+
+#print axioms lock_order
+#print axioms pubsub_deadlock_free
+#print axioms send_sees_consistent_set
+#print axioms send_loop_invariant
+#print axioms dropped_object_is_empty
+#print axioms release_deadlocks
+
 end PSC
